@@ -12,13 +12,14 @@ for d in $seeds; do
   wt=$(mktemp -d /tmp/seedrun-XXXX); rmdir $wt
   git -C /repo worktree add --detach $wt HEAD >/dev/null 2>&1
   if ! git -C $wt apply /verif/$d/patch.diff 2>/dev/null; then echo "$name: PATCH DOES NOT APPLY"; git -C /repo worktree remove --force $wt; continue; fi
-  : > $d/detection.txt
+  : > $d/detection.txt.new
   for c in $checks; do
     out=$(bin/symgo check -spec checks/$c.json -tier quick -repo $wt -evidence "" 2>&1)
     rc=$?
     labels=$(echo "$out" | grep 'counterexample:' | sed 's/.*entry=\([A-Za-z0-9_]*\).*label="\([^"]*\)".*/\1: \2/' | sort -u | head -4 | tr '\n' ';')
-    echo "check=$c exit=$rc $labels" >> $d/detection.txt
+    echo "check=$c exit=$rc $labels" >> $d/detection.txt.new
     echo "$name check=$c exit=$rc $(echo "$labels" | cut -c1-200)"
   done
+  mv $d/detection.txt.new $d/detection.txt   # only a finished run replaces the record
   git -C /repo worktree remove --force $wt
 done
